@@ -485,15 +485,13 @@ class Fbank(LinearFilterBank):
         analytic: bool = False,
     ):
         scaling_function = MelScaling()
-        if low_hz < 0 or (
-            high_hz and (high_hz <= low_hz or high_hz > sampling_rate // 2)
-        ):
+        if high_hz is None:
+            high_hz = sampling_rate // 2
+        if low_hz < 0 or high_hz <= low_hz or high_hz > sampling_rate // 2:
             raise ValueError(
                 "Invalid frequency range: ({},{})".format(low_hz, high_hz)
             )
         self._rate = sampling_rate
-        if high_hz is None:
-            high_hz = sampling_rate // 2
         # compute vertices
         scale_low = scaling_function.hertz_to_scale(low_hz)
         scale_high = scaling_function.hertz_to_scale(high_hz)
